@@ -161,6 +161,44 @@ func sharedOptionScenario(random bool, bound int) *vsched.Scenario {
 	}
 }
 
+// twoCallsScenario: two PMap calls one after the other in one process, different functions and lists of the
+// same element types, under a sync.Pool policy of the model (the implementation may recycle objects
+// between calls): the second result is the second call's alone.
+func twoCallsScenario(random bool, pool int, bound int) *vsched.Scenario {
+	fam := "pmap-two-calls"
+	var results [][]int
+	return &vsched.Scenario{
+		Name:  fmt.Sprintf("pmap/two-calls/random=%v/sync.Pool-policy%d", random, pool),
+		Bound: bound,
+		Body: func() {
+			vsched.PoolRetain = pool
+			results = nil
+			opt := &fpgo.PMapOption{FixedPool: 2, RandomOrder: random}
+			results = append(results, fpgo.PMap(func(v int) int { return v + 100 }, opt, 1, 2, 3))
+			results = append(results, fpgo.PMap(func(v int) int { return v + 500 }, opt, 7, 8))
+			results = append(results, fpgo.PMap(func(v int) int { return v + 900 }, nil, 4))
+			vsched.PoolRetain = 0
+		},
+		Check: func(r *vsched.Result) []vsched.Failure {
+			fs := e1.Basic("C16", fam, r, nil)
+			if len(fs) > 0 || len(results) != 3 {
+				return fs
+			}
+			want := [][]int{{101, 102, 103}, {507, 508}, {904}}
+			for i := range want {
+				got := append([]int{}, results[i]...)
+				if random {
+					sort.Ints(got)
+				}
+				if fmt.Sprint(got) != fmt.Sprint(want[i]) {
+					fs = append(fs, e1.Fail("C16|"+fam+"|result", "call %d of three consecutive PMap calls returned %v, want %v (all results: %v)", i+1, results[i], want[i], results))
+				}
+			}
+			return fs
+		},
+	}
+}
+
 func scenarios(tier string) []*vsched.Scenario {
 	var out []*vsched.Scenario
 	maxLen, b := 3, 2
@@ -168,6 +206,9 @@ func scenarios(tier string) []*vsched.Scenario {
 		maxLen, b = 4, 3
 	}
 	out = append(out, sharedOptionScenario(false, 2), sharedOptionScenario(true, 2))
+	for _, pool := range []int{1, 2} {
+		out = append(out, twoCallsScenario(false, pool, 1), twoCallsScenario(true, pool, 1))
+	}
 	for n := 0; n <= maxLen; n++ {
 		pools := []int{noOption, -1, 0, 1, 2, n, n + 1}
 		seen := map[int]bool{}
